@@ -152,7 +152,7 @@ class LPoly():
         Evalute the Laurent polynomial f(w) at w = exp(i * angle) for angle iterating over angles. Returns a complex array .
         '''
         if self.iszero:
-            return 1
+            return numpy.zeros(numpy.size(angles), dtype=complex)
         res = self.coefs.dot(
             numpy.exp(
                 1j *
